@@ -683,6 +683,77 @@ func (c *c18case) runAll(cx *lib.Ctx) {
 		}
 	}()
 
+	// (A') two passes over a split of the specification, with the usual queries in between: the remaining body of
+	// the first pass is asked for its variables / source range / content (results discarded) before it is
+	// decoded.  Asking must not change what it holds; and the whole flow must agree with the same flow on
+	// the written-out configuration.
+	if os, ok := spec.(hcldec.ObjectSpec); ok && len(os) >= 2 && expanded.panicked == nil {
+		func() {
+			defer func() {
+				if p := recover(); p != nil {
+					res.Count("two-pass:panic(not compared)")
+				}
+			}()
+			keys := decgen.SortedKeys(func() map[string]bool {
+				m := map[string]bool{}
+				for k := range os {
+					m[k] = true
+				}
+				return m
+			}())
+			specA, specB := hcldec.ObjectSpec{}, hcldec.ObjectSpec{}
+			for i, k := range keys {
+				if (c.in.Seed>>uint(i%60))&1 == 0 {
+					specA[k] = os[k]
+				} else {
+					specB[k] = os[k]
+				}
+			}
+			if len(specA) == 0 || len(specB) == 0 {
+				specA, specB = hcldec.ObjectSpec{keys[0]: os[keys[0]]}, hcldec.ObjectSpec{}
+				for _, k := range keys[1:] {
+					specB[k] = os[k]
+				}
+			}
+			flow := func(body hcl.Body, queries bool) (outcome, outcome) {
+				va, remain, da := hcldec.PartialDecode(body, specA, c.ctx)
+				if queries {
+					_ = hcldec.Variables(remain, specB)
+					_ = hcldec.SourceRange(remain, specB)
+					_, _, _ = remain.PartialContent(hcldec.ImpliedSchema(specB))
+					_, _, _ = hcldec.PartialDecode(remain, specB, c.ctx)
+				}
+				vb, db := hcldec.Decode(remain, specB, c.ctx)
+				return outcome{val: va, diags: da}, outcome{val: vb, diags: db}
+			}
+			ea, eb := flow(dynblock.Expand(df.Body, c.ctx), true)
+			na, nb := flow(dynblock.Expand(df.Body, c.ctx), false)
+			wa, wb := flow(wf.Body, true)
+			res.Count("check:two-pass-with-queries")
+			for _, p := range []struct {
+				what   string
+				x, y   outcome
+				versus string
+			}{{"first-pass", ea, na, "without-queries"}, {"second-pass", eb, nb, "without-queries"}, {"first-pass", ea, wa, "written-out"}, {"second-pass", eb, wb, "written-out"}} {
+				if p.versus == "written-out" && (c.x.sawEmpty || c.x.sawEmptyUnknownType) && nErrors(p.x.diags) > nErrors(p.y.diags) {
+					continue
+				}
+				if p.what == "second-pass" && ea.diags.HasErrors() {
+					// an invalid configuration: the first pass has reported it on both sides; which of the
+					// passes repeats the complaint is a difference in diagnostics, not in what is decoded
+					res.Count("two-pass:first-pass-errors(second pass not compared)")
+					continue
+				}
+				if ok, why := sameOutcome(p.x, p.y, c.x.sawMarked); !ok {
+					res.Fail(lib.Failure{Kind: "oracle", Key: "two-pass-differs:" + p.what + ":vs-" + p.versus + ":" + why + c.after(),
+						Desc:  "PartialDecode with one part of the specification, queries on the remaining body (variables, source range, content; results discarded), then Decode of the remaining body with the other part: the " + p.what + " result differs from the same flow " + map[string]string{"without-queries": "without the queries", "written-out": "on the written-out configuration"}[p.versus],
+						Input: c.input("two-pass"), Impl: describe(p.x), Model: describe(p.y)})
+					return
+				}
+			}
+		}()
+	}
+
 	// (D) the reported variables are sufficient, and iterator names are not reported
 	if expanded.panicked != nil {
 		return
